@@ -1,1 +1,553 @@
-//! E2 — controlled scheduler (filled in below).
+//! E2 — controlled scheduler (CHESS style).
+//!
+//! Logical threads are OS threads that only run while they hold the baton. A *point* is:
+//! the start of a logical thread, every explicit [`point`] (harness operation boundaries and
+//! the `sched_point` hooks compiled into gm-quic under `--cfg genmeta_gm_quic_verif`), and
+//! every [`sleep_until_woken`] (a task that returned `Poll::Pending` and waits for its
+//! waker). At a point exactly one *enabled* thread is chosen: from the replay prefix, or by
+//! default the current thread if it is still enabled, else the lowest id. A sleeping thread
+//! is enabled iff its counting waker fired since it decided to sleep.
+//!
+//! [`explore`] enumerates all schedules by stateless DFS with a preemption bound (switching
+//! away from a thread that is still enabled costs 1). Terminal states: all threads finished,
+//! or *deadlock* (unfinished threads, none enabled) — the harness decides whether a deadlock
+//! is a lost wake-up (the awaited condition holds) or legitimate.
+use std::{
+    cell::RefCell,
+    collections::BTreeMap,
+    sync::{
+        Arc, Condvar, Mutex,
+        atomic::{AtomicUsize, Ordering},
+    },
+    task::{Wake, Waker},
+    time::{Duration, Instant},
+};
+
+use serde_json::{Value, json};
+
+use crate::panics;
+
+const WATCHDOG: Duration = Duration::from_secs(10);
+
+#[derive(Debug, Clone, Copy, PartialEq, Eq)]
+enum TStatus {
+    /// has not reached its first point yet / running / waiting for the baton at a point
+    Runnable,
+    /// waiting for its waker; enabled iff `wakes > seen`
+    Sleeping { seen: usize },
+    Finished,
+}
+
+struct Thread {
+    name: String,
+    status: TStatus,
+    waker: Arc<CountingWaker>,
+    /// parked at a point (has handed the baton over / not yet started)
+    parked: bool,
+}
+
+#[derive(Debug, Clone)]
+pub struct Choice {
+    /// number of enabled threads at this point
+    pub enabled: usize,
+    /// index chosen in canonical order (current first if enabled, then ascending ids)
+    pub chosen: usize,
+    /// was the thread that reached the point still enabled (so chosen != 0 is a preemption)
+    pub current_enabled: bool,
+    pub label: String,
+    pub thread: usize,
+}
+
+struct State {
+    threads: Vec<Thread>,
+    current: Option<usize>,
+    prefix: Vec<usize>,
+    choices: Vec<Choice>,
+    log: Vec<String>,
+    deadlocked: bool,
+    unfinished: Vec<String>,
+    aborted: bool,
+    divergence: Option<String>,
+}
+
+struct Shared {
+    m: Mutex<State>,
+    cv: Condvar,
+}
+
+/// The waker handed to gm-quic futures polled by a logical thread.
+pub struct CountingWaker {
+    wakes: AtomicUsize,
+}
+
+impl Wake for CountingWaker {
+    fn wake(self: Arc<Self>) {
+        self.wakes.fetch_add(1, Ordering::SeqCst);
+    }
+    fn wake_by_ref(self: &Arc<Self>) {
+        self.wakes.fetch_add(1, Ordering::SeqCst);
+    }
+}
+
+impl CountingWaker {
+    pub fn count(&self) -> usize {
+        self.wakes.load(Ordering::SeqCst)
+    }
+}
+
+thread_local! {
+    static CURRENT: RefCell<Option<(Arc<Shared>, usize)>> = const { RefCell::new(None) };
+}
+
+struct Aborted;
+
+/// Handle given to each logical thread body.
+pub struct Ctx {
+    shared: Arc<Shared>,
+    id: usize,
+}
+
+impl Ctx {
+    pub fn id(&self) -> usize {
+        self.id
+    }
+
+    /// A scheduling point: any enabled thread may run next.
+    pub fn point(&self, label: &str) {
+        yield_at(&self.shared, self.id, label, None);
+    }
+
+    /// The waker to poll gm-quic futures with.
+    pub fn waker(&self) -> Waker {
+        let st = self.shared.m.lock().unwrap();
+        Waker::from(st.threads[self.id].waker.clone())
+    }
+
+    pub fn wake_count(&self) -> usize {
+        let st = self.shared.m.lock().unwrap();
+        st.threads[self.id].waker.count()
+    }
+
+    /// The caller polled at wake count `seen`, got `Pending`, and now sleeps until its waker
+    /// fires. Returns normally once woken and scheduled; on deadlock the thread is unwound.
+    pub fn sleep_until_woken(&self, seen: usize, label: &str) {
+        yield_at(&self.shared, self.id, label, Some(seen));
+    }
+
+    /// Polls `f` until it is ready, sleeping (as an async task would) while it is pending.
+    /// Every poll is preceded by a scheduling point.
+    pub fn block_on<T>(&self, label: &str, mut f: impl FnMut(&mut std::task::Context<'_>) -> std::task::Poll<T>) -> T {
+        let waker = self.waker();
+        let mut cx = std::task::Context::from_waker(&waker);
+        loop {
+            self.point(&format!("{label}:poll"));
+            let seen = self.wake_count();
+            match f(&mut cx) {
+                std::task::Poll::Ready(v) => return v,
+                std::task::Poll::Pending => {
+                    self.log(&format!("{label}:pending"));
+                    self.sleep_until_woken(seen, &format!("{label}:sleep"));
+                    self.log(&format!("{label}:woken"));
+                }
+            }
+        }
+    }
+
+    /// Appends to the execution's observation log.
+    pub fn log(&self, s: &str) {
+        let mut st = self.shared.m.lock().unwrap();
+        let name = st.threads[self.id].name.clone();
+        st.log.push(format!("{name}: {s}"));
+    }
+}
+
+/// Called by the gm-quic hook (`qbase::verif::sched_point`) — a no-op on threads that are not
+/// logical threads of a running exploration.
+pub fn hook_point(label: &'static str) {
+    let cur = CURRENT.with(|c| c.borrow().clone());
+    if let Some((shared, id)) = cur {
+        yield_at(&shared, id, label, None);
+    }
+}
+
+fn enabled_list(st: &State, me: usize) -> (Vec<usize>, bool) {
+    let is_enabled = |t: &Thread| match t.status {
+        TStatus::Runnable => true,
+        TStatus::Sleeping { seen } => t.waker.count() > seen,
+        TStatus::Finished => false,
+    };
+    let me_enabled = is_enabled(&st.threads[me]);
+    let mut v = Vec::new();
+    if me_enabled {
+        v.push(me);
+    }
+    for (i, t) in st.threads.iter().enumerate() {
+        if i != me && is_enabled(t) {
+            v.push(i);
+        }
+    }
+    (v, me_enabled)
+}
+
+/// Picks the next thread to run (called with the state locked by the thread giving up the
+/// baton) and wakes it.
+fn schedule(shared: &Shared, st: &mut State, me: usize, label: &str) {
+    let (enabled, me_enabled) = enabled_list(st, me);
+    if enabled.is_empty() {
+        st.current = None;
+        if st.threads.iter().any(|t| t.status != TStatus::Finished) {
+            st.deadlocked = true;
+            st.unfinished = st
+                .threads
+                .iter()
+                .filter(|t| t.status != TStatus::Finished)
+                .map(|t| t.name.clone())
+                .collect();
+            st.aborted = true; // unwind the sleepers
+        }
+        shared.cv.notify_all();
+        return;
+    }
+    let pos = st.choices.len();
+    let chosen = if enabled.len() == 1 {
+        0
+    } else if pos < st.prefix.len() {
+        let c = st.prefix[pos];
+        if c >= enabled.len() {
+            st.divergence = Some(format!(
+                "replay prefix asks for choice {c} at point {pos} ({label}) but only {} threads are enabled",
+                enabled.len()
+            ));
+            0
+        } else {
+            c
+        }
+    } else {
+        0
+    };
+    // points with a single enabled thread are recorded too, so that positions are stable
+    st.choices.push(Choice {
+        enabled: enabled.len(),
+        chosen,
+        current_enabled: me_enabled,
+        label: label.to_string(),
+        thread: me,
+    });
+    st.current = Some(enabled[chosen]);
+    shared.cv.notify_all();
+}
+
+fn yield_at(shared: &Arc<Shared>, me: usize, label: &str, sleep_seen: Option<usize>) {
+    let mut st = shared.m.lock().unwrap();
+    if st.aborted {
+        drop(st);
+        std::panic::resume_unwind(Box::new(Aborted));
+    }
+    st.threads[me].status = match sleep_seen {
+        Some(seen) => TStatus::Sleeping { seen },
+        None => TStatus::Runnable,
+    };
+    st.threads[me].parked = true;
+    schedule(shared, &mut st, me, label);
+    let deadline = Instant::now() + WATCHDOG;
+    loop {
+        if st.aborted {
+            drop(st);
+            std::panic::resume_unwind(Box::new(Aborted));
+        }
+        if st.current == Some(me) {
+            break;
+        }
+        let (g, to) = shared.cv.wait_timeout(st, Duration::from_millis(200)).unwrap();
+        st = g;
+        if to.timed_out() && Instant::now() > deadline {
+            eprintln!("machinery error: scheduler watchdog — thread {me} waited {WATCHDOG:?} at {label}; a logical thread is blocked on a real lock or stuck");
+            std::process::exit(2);
+        }
+    }
+    st.threads[me].status = TStatus::Runnable;
+    st.threads[me].parked = false;
+}
+
+/// One finished execution.
+#[derive(Debug, Clone)]
+pub struct Execution {
+    pub choices: Vec<Choice>,
+    pub log: Vec<String>,
+    pub deadlocked: bool,
+    /// names of the threads that had not finished (deadlock only)
+    pub unfinished: Vec<String>,
+    pub panics: Vec<(String, panics::PanicInfo)>,
+}
+
+impl Execution {
+    pub fn schedule(&self) -> Vec<usize> {
+        self.choices.iter().map(|c| c.chosen).collect()
+    }
+    pub fn preemptions(&self) -> usize {
+        self.choices.iter().filter(|c| c.current_enabled && c.chosen != 0).count()
+    }
+}
+
+pub type Body = Box<dyn FnOnce(&Ctx) + Send + 'static>;
+
+/// Runs one execution of the logical threads produced by `bodies` under the schedule prefix.
+pub fn run_once(bodies: Vec<(String, Body)>, prefix: &[usize]) -> Execution {
+    panics::install_hook();
+    let n = bodies.len();
+    let shared = Arc::new(Shared {
+        m: Mutex::new(State {
+            threads: bodies
+                .iter()
+                .map(|(name, _)| Thread {
+                    name: name.clone(),
+                    status: TStatus::Runnable,
+                    waker: Arc::new(CountingWaker { wakes: AtomicUsize::new(0) }),
+                    parked: false,
+                })
+                .collect(),
+            current: None,
+            prefix: prefix.to_vec(),
+            choices: Vec::new(),
+            log: Vec::new(),
+            deadlocked: false,
+            unfinished: Vec::new(),
+            aborted: false,
+            divergence: None,
+        }),
+        cv: Condvar::new(),
+    });
+    let panics_seen: Arc<Mutex<Vec<(String, panics::PanicInfo)>>> = Arc::new(Mutex::new(Vec::new()));
+    let mut handles = Vec::new();
+    for (id, (name, body)) in bodies.into_iter().enumerate() {
+        let shared = shared.clone();
+        let panics_seen = panics_seen.clone();
+        handles.push(std::thread::spawn(move || {
+            CURRENT.with(|c| *c.borrow_mut() = Some((shared.clone(), id)));
+            let ctx = Ctx { shared: shared.clone(), id };
+            // wait for the first baton
+            {
+                let mut st = shared.m.lock().unwrap();
+                st.threads[id].parked = true;
+                shared.cv.notify_all();
+                while st.current != Some(id) && !st.aborted {
+                    st = shared.cv.wait(st).unwrap();
+                }
+                if st.aborted {
+                    st.threads[id].status = TStatus::Finished;
+                    return;
+                }
+                st.threads[id].parked = false;
+            }
+            let r = panics::catch(|| body(&ctx));
+            let mut st = shared.m.lock().unwrap();
+            if let Err(p) = r {
+                // `resume_unwind(Aborted)` (deadlock unwinding) does not run the panic hook, so
+                // it has no recorded location; real panics do
+                if p.location != "?" {
+                    panics_seen.lock().unwrap().push((name.clone(), p));
+                }
+            }
+            st.threads[id].status = TStatus::Finished;
+            if st.current == Some(id) {
+                schedule(&shared, &mut st, id, "exit");
+            }
+            CURRENT.with(|c| *c.borrow_mut() = None);
+        }));
+    }
+    // start: wait until all threads are parked, then hand the baton to thread 0 (the choice of
+    // the first thread is itself a scheduling decision)
+    {
+        let mut st = shared.m.lock().unwrap();
+        while !st.threads.iter().all(|t| t.parked) {
+            st = shared.cv.wait(st).unwrap();
+        }
+        let pos = st.choices.len();
+        let chosen = if n > 1 && pos < st.prefix.len() { st.prefix[pos].min(n - 1) } else { 0 };
+        st.choices.push(Choice {
+            enabled: n,
+            chosen,
+            current_enabled: false,
+            label: "start".into(),
+            thread: usize::MAX,
+        });
+        st.current = Some(chosen);
+        shared.cv.notify_all();
+    }
+    for h in handles {
+        let _ = h.join();
+    }
+    let st = shared.m.lock().unwrap();
+    if let Some(d) = &st.divergence {
+        eprintln!("machinery error: {d}");
+        std::process::exit(2);
+    }
+    Execution {
+        choices: st.choices.clone(),
+        log: st.log.clone(),
+        deadlocked: st.deadlocked,
+        unfinished: st.unfinished.clone(),
+        panics: panics_seen.lock().unwrap().clone(),
+    }
+}
+
+#[derive(Debug, Clone)]
+pub struct SchedCfg {
+    pub preemption_bound: usize,
+    pub max_schedules: usize,
+    pub time_cap: Duration,
+}
+
+impl Default for SchedCfg {
+    fn default() -> Self {
+        SchedCfg { preemption_bound: usize::MAX, max_schedules: 2_000_000, time_cap: Duration::from_secs(600) }
+    }
+}
+
+#[derive(Debug, Default, Clone)]
+pub struct SchedStats {
+    pub schedules: u64,
+    pub with_preemption: u64,
+    pub deadlocks: u64,
+    pub points: u64,
+    pub max_points: usize,
+    pub distinct_logs: u64,
+    pub cap_hit: Option<String>,
+    pub outcomes: BTreeMap<String, u64>,
+    /// signature → (detail, schedule, log)
+    pub violations: BTreeMap<String, (String, Vec<usize>, Vec<String>, u64)>,
+    pub samples: Vec<Value>,
+}
+
+/// A scenario builds fresh shared state + logical thread bodies for one execution, and a
+/// judge that inspects the finished execution: `Ok(outcome label)` or `Err((sig, detail))`.
+pub trait Scenario: Sync {
+    type Shared: Send + Sync + 'static;
+    fn build(&self) -> (Arc<Self::Shared>, Vec<(String, Body)>);
+    fn judge(&self, shared: &Self::Shared, exec: &Execution) -> Result<String, (String, String)>;
+}
+
+/// Stateless DFS over all schedules within the preemption bound.
+pub fn explore<S: Scenario>(sc: &S, cfg: &SchedCfg) -> SchedStats {
+    let started = Instant::now();
+    let mut stats = SchedStats::default();
+    let mut logs = std::collections::HashSet::new();
+    let mut stack: Vec<Vec<usize>> = vec![vec![]];
+    // determinism self-test on the default schedule
+    {
+        let (s1, b1) = sc.build();
+        let e1 = run_once(b1, &[]);
+        let (s2, b2) = sc.build();
+        let e2 = run_once(b2, &[]);
+        let _ = (s1, s2);
+        if e1.log != e2.log || e1.schedule() != e2.schedule() {
+            eprintln!("machinery error: the same schedule produced two different observation logs:\n{:?}\n{:?}", e1.log, e2.log);
+            std::process::exit(2);
+        }
+    }
+    while let Some(prefix) = stack.pop() {
+        if stats.schedules as usize >= cfg.max_schedules {
+            stats.cap_hit = Some(format!("schedule cap {} hit", cfg.max_schedules));
+            break;
+        }
+        if started.elapsed() > cfg.time_cap {
+            stats.cap_hit = Some(format!("time cap {:?} hit", cfg.time_cap));
+            break;
+        }
+        let (shared, bodies) = sc.build();
+        let exec = run_once(bodies, &prefix);
+        stats.schedules += 1;
+        stats.points += exec.choices.len() as u64;
+        stats.max_points = stats.max_points.max(exec.choices.len());
+        if exec.preemptions() > 0 {
+            stats.with_preemption += 1;
+        }
+        if exec.deadlocked {
+            stats.deadlocks += 1;
+        }
+        if logs.insert(crate::hash128(&exec.log.join("\n"))) {
+            stats.distinct_logs += 1;
+        }
+        let mut fails: Vec<(String, String)> = Vec::new();
+        for (who, p) in &exec.panics {
+            fails.push((format!("panic/{}", p.class()), format!("thread {who} panicked at {}: {}", p.location, p.message)));
+        }
+        match sc.judge(&shared, &exec) {
+            Ok(label) => *stats.outcomes.entry(label).or_default() += 1,
+            Err(f) => fails.push(f),
+        }
+        for (sig, detail) in fails {
+            stats
+                .violations
+                .entry(sig)
+                .and_modify(|e| e.3 += 1)
+                .or_insert_with(|| (detail, exec.schedule(), exec.log.clone(), 1));
+        }
+        if stats.samples.len() < 3 {
+            stats.samples.push(json!({"schedule": exec.schedule(), "log": exec.log}));
+        }
+        // children: deviate at every point at or after the prefix
+        let mut cost_before = 0usize;
+        let costs: Vec<usize> = exec
+            .choices
+            .iter()
+            .map(|c| {
+                let b = cost_before;
+                if c.current_enabled && c.chosen != 0 {
+                    cost_before += 1;
+                }
+                b
+            })
+            .collect();
+        for i in (prefix.len()..exec.choices.len()).rev() {
+            let c = &exec.choices[i];
+            for alt in (1..c.enabled).rev() {
+                let cost = costs[i] + if c.current_enabled { 1 } else { 0 };
+                if cost > cfg.preemption_bound {
+                    continue;
+                }
+                let mut p: Vec<usize> = exec.choices[..i].iter().map(|c| c.chosen).collect();
+                p.push(alt);
+                stack.push(p);
+            }
+        }
+    }
+    stats
+}
+
+impl SchedStats {
+    pub fn coverage(&self, rule: &str) -> crate::report::Coverage {
+        let mut extra = serde_json::Map::new();
+        extra.insert("schedules".into(), json!(self.schedules));
+        extra.insert("schedules_with_preemption".into(), json!(self.with_preemption));
+        extra.insert("deadlocks_observed".into(), json!(self.deadlocks));
+        extra.insert("scheduling_points".into(), json!(self.points));
+        extra.insert("max_points_per_schedule".into(), json!(self.max_points));
+        extra.insert("distinct_observation_logs".into(), json!(self.distinct_logs));
+        extra.insert("outcomes".into(), json!(self.outcomes));
+        if let Some(c) = &self.cap_hit {
+            extra.insert("cap_hit".into(), json!(c));
+        }
+        crate::report::Coverage {
+            evaluations: self.schedules,
+            distinct_nontrivial: self.distinct_logs,
+            states: self.distinct_logs,
+            transitions: self.points,
+            traces: self.schedules,
+            exhaustive: self.cap_hit.is_none(),
+            rule: rule.to_string(),
+            samples: self.samples.clone(),
+            extra,
+        }
+    }
+}
+
+/// Files the violations of an exploration into the report.
+pub fn file_violations(report: &mut crate::Report, sub: &str, stats: &SchedStats) {
+    for (sig, (detail, schedule, log, _hits)) in &stats.violations {
+        report.violation(sig, detail, json!({"sub": sub, "schedule": schedule, "log": log}));
+    }
+    if let Some(c) = &stats.cap_hit {
+        report.caps_hit.push(format!("{sub}: {c}"));
+    }
+}
